@@ -117,10 +117,24 @@ func (b *Bytes) Grow(offset int64) error {
 		return fmt.Errorf("Negative grow offset: %d", offset)
 	}
 	b.mu.Lock()
-	b.bytes = append(b.bytes, make([]byte, offset)...)
+	defer b.mu.Unlock() // deferred: nothing below may leave the mutex locked
+	grown, err := appendZeros(b.bytes, offset)
+	if err != nil {
+		return err
+	}
+	b.bytes = grown
 	atomic.StoreInt64(&b.length, int64(len(b.bytes)))
-	b.mu.Unlock()
 	return nil
+}
+
+// appendZeros returns 'buf' extended by 'n' zero bytes. A size the runtime cannot allocate ("len out of range") is an error, not a panic.
+func appendZeros(buf []byte, n int64) (grown []byte, err error) {
+	defer func() {
+		if r := recover(); r != nil {
+			grown, err = nil, fmt.Errorf("Grow offset too large: %d (%v)", n, r)
+		}
+	}()
+	return append(buf, make([]byte, n)...), nil
 }
 
 // Truncate implements Blob.
